@@ -296,7 +296,7 @@ impl Expr {
                     if let (TypeLayout::Native(target), TypeLayout::Native(result)) =
                         (lhs.disregard_distractors(false), &output)
                     {
-                        if lhs.is_numeric(true)
+                        if lhs.disregard_distractors(false).is_numeric(true)
                             && output.is_numeric(true)
                             && std::mem::discriminant(target) != std::mem::discriminant(result)
                         {
